@@ -123,7 +123,19 @@ func encodeLength(out *bytes.Buffer, length int) (err error) {
 	return
 }
 
+// maxBERDepth bounds the nesting of constructed encodings: readObject is
+// recursive and an input of repeated "30 80" would otherwise exhaust the
+// goroutine stack (fatal, not recoverable).
+const maxBERDepth = 100
+
 func readObject(ber []byte, offset int) (asn1Object, int, error) {
+	return readObjectDepth(ber, offset, 0)
+}
+
+func readObjectDepth(ber []byte, offset int, depth int) (asn1Object, int, error) {
+	if depth > maxBERDepth {
+		return nil, 0, errors.New("ber2der: structure nested too deeply")
+	}
 	berLen := len(ber)
 	if offset >= berLen {
 		return nil, 0, errors.New("ber2der: offset is after end of ber data")
@@ -221,7 +233,7 @@ func readObject(ber []byte, offset int) (asn1Object, int, error) {
 		for (offset < contentEnd) || indefinite {
 			var subObj asn1Object
 			var err error
-			subObj, offset, err = readObject(ber, offset)
+			subObj, offset, err = readObjectDepth(ber, offset, depth+1)
 			if err != nil {
 				return nil, 0, err
 			}
